@@ -66,6 +66,7 @@ func c06(c *ev.Ctx) {
 	})
 	c06Names(c)
 	c06Fixed(c)
+	c06PartialReturn(c)
 	// the function table belongs to the script in force: after preparing another
 	// script on the same evaluator a function only the old script defined is unknown
 	c20RePrepare(c)
@@ -180,6 +181,60 @@ func c06Fixed(c *ev.Ctx) {
 			}
 			if err == nil && evr.ScopeDepth() != 0 {
 				c.Violation(id, id+"/scopes", map[string]interface{}{"summary": fmt.Sprintf("%s leaves %d scope(s) open", tc.script, evr.ScopeDepth()), "script": tc.script})
+			}
+		}
+	}
+}
+
+// c06PartialReturn: functions that return a value on some paths and nothing on the others
+// (their last statement is a conditional / loop / switch with a return inside), called as
+// a statement and as a value, from the top level, from loops and from other functions.
+func c06PartialReturn(c *ev.Ctx) {
+	tails := []string{
+		`if (n > 10) { return n; }`,
+		`if (n > 10) { return n; } else { m = m + 1; }`,
+		`if (n <= 10) { m = m + 1; } else { return n; }`,
+		`switch (n) { case 1, 2, 3 { m = m + 1; } default { return n; } }`,
+		`switch (n) { case 50, 60 { return n; } case 1 { m = m + 1; } }`,
+		`if (n > 100) { return 0; } else if (n > 10) { return n; }`,
+		`while (n > 10) { return n; }`,
+		`foreach q in [n] { if (q > 10) { return q; } }`,
+		`if (n > 10) { if (n > 20) { return n; } }`,
+	}
+	callers := []struct{ body, want string }{
+		{`foreach n in [1, 2, 3] { pr(n); } return cnt;`, "INTEGER:3"},
+		{`foreach k, n in {"a": 1, "b": 2} { pr(n); pr(n + 1); } return cnt;`, "INTEGER:4"},
+		{`pr(1); pr(50); pr(2); return cnt;`, "INTEGER:3"},
+		{`x = pr(50); return [x, cnt];`, "ARRAY:[50, 1]"},
+		{`x = pr(1); return [x, cnt];`, "error"},
+		{`return pr(2);`, "error"},
+		{`i = 0; while (i < 3) { i++; pr(i); } return cnt;`, "INTEGER:3"},
+		{`function outer(a) { pr(a); return a + 1; } return [outer(1), outer(2), cnt];`, "ARRAY:[2, 3, 2]"},
+		{`function outer(a) { foreach e in [a, a] { pr(e); } return a + 1; } return [outer(1), outer(3), cnt];`, "ARRAY:[2, 4, 4]"},
+		{`return [pr(50), pr(60), cnt];`, "ARRAY:[50, 60, 2]"},
+		{`if (true) { pr(3); } r = pr(60) + 1; return [r, cnt];`, "ARRAY:[61, 2]"},
+	}
+	for ti, tail := range tails {
+		for ci, cl := range callers {
+			id := fmt.Sprintf("partial-return/%d/%d", ti, ci)
+			if !c.Want(id) {
+				continue
+			}
+			script := "function pr(n) { cnt = cnt + 1; " + tail + " } cnt = 0; m = 0; " + cl.body
+			for _, noOpt := range []bool{false, true} {
+				evr, err := eng.New(script, eng.Options{NoOptimize: noOpt})
+				got := "prepare-error"
+				if err == nil {
+					got = evr.Exec(map[string]interface{}{}).Desc()
+					if got == cl.want {
+						// and again on the same evaluator
+						got = evr.Exec(map[string]interface{}{}).Desc()
+					}
+				}
+				c.Case(script+fmt.Sprint(noOpt), true)
+				if got != cl.want {
+					c.Violation(id, "function returning on some paths only", map[string]interface{}{"summary": fmt.Sprintf("%s (noopt=%v) gives %s, expected %s", script, noOpt, got, cl.want), "script": script})
+				}
 			}
 		}
 	}
